@@ -139,7 +139,7 @@ class OpsMixin:
                 rep=rep,
                 **self.step_features(step),
             )
-        self.stats["incidental_crash"] += 1
+        self.incident(step, rep, cls, res[2], "verb")
 
     def step_features(self, step):
         return {}
@@ -614,8 +614,7 @@ class OpsMixin:
         """the k-th statement / the next connect of the SQLite engine will fail"""
         if self.world.faults is None:
             raise Skip("no sql")
-        if step["kind"] == "exec":
-            self.world.faults.arm_exec(step.get("k", 1))
-        else:
-            self.world.faults.arm_connect()
+        # the fault lands inside the next observer step on the SQLite replica (in-flight work),
+        # never while the simulator itself talks to the database
+        self.pending_fault = (step["kind"], step.get("k", 1))
         self.emit(step, "armed")
